@@ -7,6 +7,7 @@ CONSTANTS
   MaxPTail = 4
   MaxDTail = 4
   MaxD2Tail = 4
+  MaxD3Tail = 4
   PayChars = {":", "_", "1", "x"}
   MaxPay = 2
   MaxDeltaPay = 2
